@@ -108,3 +108,77 @@ Definition answer_ok (r : outcome (list N)) (d : N) : bool :=
   match r with Ok l => existsb (N.eqb d) l | _ => false end.
 Definition answer_err (r : outcome (list N)) (c : nat) : bool :=
   match r with Err c' => Nat.eqb c c' | _ => false end.
+
+(* ---------- vm_compute cross-check of the extraction (bin/check vm_sample) ----------
+   One whole case (tree, announcements, database entries, query sequence) is re-run inside Coq and
+   compared with the implementation's observables. *)
+Inductive vq :=
+| VQe (natural : bool) (e : N) (h : hdr)     (* GetEpochDataRaw; natural: e was observed as GetEpochForBlock(h) *)
+| VQc (natural : bool) (e : N) (h : hdr)     (* GetConfigData *)
+| VQg (h : hdr)                               (* GetEpochForBlock *)
+| VQE (se ce : N) (h : hdr)                   (* GetSkippedEpochDataRaw *)
+| VQC (se ce : N) (h : hdr)                   (* GetSkippedConfigData *)
+| VQR.                                        (* restart *)
+Inductive vo :=
+| VOok (d : N) | VOerr (c : nat) | VOep (e : N)
+| VOokm (d : N) (m : emap) | VOerrm (c : nat) (m : emap)
+| VOr (me mc : emap).
+
+Definition inner_sub (a b : list (nat * N)) : bool :=
+  forallb (fun x => existsb (fun y => Nat.eqb (fst x) (fst y) && (snd x =? snd y)) b) a.
+Definition inner_eqb (a b : list (nat * N)) : bool :=
+  Nat.eqb (length a) (length b) && inner_sub a b && inner_sub b a.
+Definition emap_eqb (a b : emap) : bool :=
+  Nat.eqb (length a) (length b)
+  && forallb (fun el => match alookup b (fst el) with Some l => inner_eqb (snd el) l | None => false end) a.
+Definition res_match (r : outcome (list N)) (o : vo) : bool :=
+  match o with VOok d => answer_ok r d | VOerr c => answer_err r c | _ => false end.
+
+Fixpoint vm_run (fuel : nat) (x : xst) (qs : list (vq * vo)) : bool :=
+  match qs with
+  | [] => true
+  | (q, o) :: r =>
+    let s := x_s x in
+    match q with
+    | VQg h => match o with VOep e => (epoch_of (e_tree s) (e_len s) h =? e) && vm_run fuel x r | _ => false end
+    | VQe nat e h =>
+      (negb nat || (epoch_of (e_tree s) (e_len s) h =? e)) && res_match (get_epoch_data fixed fuel s e h) o && vm_run fuel x r
+    | VQc nat e h =>
+      (negb nat || (epoch_of (e_tree s) (e_len s) h =? e)) && res_match (get_config fixed fuel s e h) o && vm_run fuel x r
+    | VQR => match o with
+             | VOr me mc => let x' := x_restart x in
+                            emap_eqb (ned (x_s x')) me && emap_eqb (ncd (x_s x')) mc && vm_run fuel x' r
+             | _ => false
+             end
+    | VQE se ce h =>
+      match get_skipped_epoch_data fixed fuel s se ce h, o with
+      | Ok alts, VOokm d m =>
+        match find (fun a : N * est => (fst a =? d) && emap_eqb (ned (snd a)) m) alts with
+        | Some a => vm_run fuel (mkxst (snd a) (x_de x) (x_dc x)) r
+        | None => false
+        end
+      | Err c', VOerrm c m => Nat.eqb c c' && emap_eqb (ned s) m && vm_run fuel x r
+      | _, _ => false
+      end
+    | VQC se ce h =>
+      match get_skipped_config fixed true fuel s se ce h, o with
+      | Ok alts, VOokm d m =>
+        match find (fun a : N * est => (fst a =? d) && emap_eqb (ncd (snd a)) m) alts with
+        | Some a => vm_run fuel (mkxst (snd a) (x_de x) (x_dc x)) r
+        | None => false
+        end
+      | Err c', VOerrm c m => Nat.eqb c c' && emap_eqb (ncd s) m && vm_run fuel x r
+      | _, _ => false
+      end
+    end
+  end.
+
+(* anns: (true = NextEpochData / false = NextConfigData, announcing block, payload) in handling order *)
+Definition vm_case (t : tree) (elen : N) (anns : list (bool * nat * N)) (dbe0 dbc0 : list (N * N))
+  (me mc : emap) (qs : list (vq * vo)) : bool :=
+  wf t &&
+  let x := fold_left (fun x a => match a with
+                                 | (true, b, d) => x_announce_epoch x b d
+                                 | (false, b, d) => x_announce_config x b d
+                                 end) anns (x_init t elen dbe0 dbc0) in
+  emap_eqb (ned (x_s x)) me && emap_eqb (ncd (x_s x)) mc && vm_run (enough_fuel t) x qs.
